@@ -47,6 +47,15 @@ def generate(rng, tier):
                 ev = list(events)
                 for t in tail: ev += S.nominal(t, rng)          # replies are available: a latched object must not consume them
                 cases.append({"calls": list(calls) + tail, "events": ev, "family": "latched:%s/%s" % (name, m)})
+    # degenerate request texts on an object that cannot transmit (empty, white space only, one character, a lone comma): the refusal comes
+    # before anything is done with the text, so the failure value is returned and nothing is raised or written
+    for _ in range(reps):
+        for name, calls, events in _latchers(rng) + [("closed", [("connect", S.GOOD_PORTS, None), ("disconnect",)], S.connect_script())]:
+            for kind in ("command", "query"):
+                for txt in ("", " ", "\t\r\n", "\xa0", ",", "Q"):
+                    tail = [(kind, txt)] + ([S.random_call(rng)] if rng.random() < 0.5 else [])
+                    ev = list(events) + S.nominal(("query", "QS"), rng)
+                    cases.append({"calls": list(calls) + tail, "events": ev, "family": "degenerate-text:%s/%s/%r" % (name, kind, txt)})
     # a second (third) connect on an object that already holds an error: every handshake variant
     handshakes = [("good", S.connect_script()), ("old-firmware", ["E", "E", ("L", "EBBv13_and_above EB Firmware Version 2.8.1")]),
                   ("older-multi-digit", ["E", "E", ("L", "EBBv13_and_above EB Firmware Version 2.10.12")]),
@@ -144,7 +153,7 @@ def coq_case(c, r):
     if "rec" in c:
         if r.get("rec_ok"): return "(K04 %s [] [] [])" % S.coq_cfg(*CFG)
         return "(K04 %s [] [(CStatus, mkobs true RNone [] None false None 0%%nat)] [])" % S.coq_cfg(*CFG)
-    if "raise" in r or any(o["raised"] in ("RecordedErrorErased", "WroteAfterRecordedError") for o in r["obs"]):
+    if "raise" in r or any(o["raised"] in ("RecordedErrorErased", "WroteAfterRecordedError", "RecordedErrorReplaced") for o in r["obs"]):
         # the harness could not run the history, or an error that was recorded during a call had vanished when the call returned
         # ("the recorded message is never replaced" - nor dropped), or a request went on transmitting after it had recorded an error
         # ("every later command ... writes no bytes"): no reading of the observations can satisfy the property
